@@ -127,9 +127,96 @@ def check_layouts(chk, npts, a, b):
     return R.outcome == 'ok' and all(R.results), R.outcome + ' ' + R.detail[:200]
 
 
+def setup_case(c):
+    """the glue in pygyro/initialisation/setups.py: the real setupCylindricalGrid on `n` simulated ranks, with or without a
+    plotting process; returns per rank (is_drawing_rank, process grid of the layouts, {layout: (starts, shape)})"""
+    import numpy as np
+    import warnings
+    from mpi4py import MPI
+    npts, n, plot, draw = c
+
+    def work(comm):
+        from pygyro.initialisation.setups import setupCylindricalGrid
+        with warnings.catch_warnings():
+            warnings.simplefilter('ignore')
+            kw = dict(plotThread=True, drawRank=draw) if plot else {}
+            grid, constants, t = setupCylindricalGrid(layout='v_parallel', npts=list(npts), comm=comm, **kw)
+        out = {}
+        for nm in ('flux_surface', 'v_parallel', 'poloidal'):
+            L = grid.getLayout(nm)
+            out[nm] = ([int(x) for x in L.dims_order], [int(x) for x in L.starts], [int(x) for x in L.shape])
+        L = grid.getLayout('v_parallel')
+        return (bool(plot and comm.Get_rank() == draw), [int(x) for x in L.nprocs[:2]], out)
+    R = MPI.run(n, work, seed=7, timeout=300)
+    if R.outcome != 'ok':
+        return ('fail', R.outcome, R.detail[:300])
+    return ('ok', R.results)
+
+
+def setup_stage(chk):
+    """on every rank count: the grid used by the set-up multiplies to the number of COMPUTING processes (the plotting
+    process is not one of them), every computing process owns >= 1 point of every dimension in every standard layout and the
+    blocks tile the index space exactly once; an error is raised exactly when no factorisation exists"""
+    import numpy as np
+    quick = chk.tier == 'quick'
+    cases = []
+    for npts in ([8, 8, 4, 6], [4, 8, 4, 4], [8, 8, 8, 8]) if quick else ([8, 8, 4, 6], [4, 8, 4, 4], [8, 8, 8, 8], [5, 6, 7, 9], [16, 8, 6, 12]):
+        for n in range(1, 8 if quick else 11):
+            cases.append((npts, n, False, 0))
+            if n >= 2:
+                cases.append((npts, n, True, 0))
+                cases.append((npts, n, True, n - 1))
+    res = implrun.run_cases('props.c20', 'setup_case', cases, tmo=600.0, chunk=1)
+    _judge_setup(chk, cases, res)
+
+
+def _judge_setup(chk, cases, res):
+    import numpy as np
+    for c, r in zip(cases, res):
+        npts, n, plot, draw = c
+        ncomp = n - 1 if plot else n
+        chk.count(('setup', tuple(npts), n, plot, draw), nontrivial=n > 1, stratum='setup/%s' % ('plotThread' if plot else 'all-compute'),
+                  sample={'npts': npts, 'ranks': n, 'plotThread': plot, 'drawRank': draw})
+        exists = oracle_exists(min(npts[0], npts[3]), min(npts[2], npts[3]), ncomp)
+        rep = {'kind': 'setup', 'case': [npts, n, plot, draw]}
+        if not isinstance(r, tuple) or r[0] != 'ok':
+            if exists:
+                chk.violation('setups.setupCylindricalGrid:grid', 'npts=%r on %d ranks (plotThread=%r, drawRank=%d): %d computing processes '
+                              'admit a process grid but the set-up ends with %r' % (npts, n, plot, draw, ncomp, r), rep)
+            continue
+        if not exists:
+            chk.violation('setups.setupCylindricalGrid:no-error', 'npts=%r on %d ranks (plotThread=%r): no factorisation of %d computing '
+                          'processes exists but the set-up returned' % (npts, n, plot, ncomp), rep)
+            continue
+        comp = [x for x in r[1] if not x[0]]
+        grids = set(tuple(x[1]) for x in comp)
+        bad = None
+        if len(comp) != ncomp or len(grids) != 1:
+            bad = '%d computing ranks report grids %r' % (len(comp), sorted(grids))
+        else:
+            g = list(grids)[0]
+            if g[0] * g[1] != ncomp:
+                bad = 'process grid %r does not multiply to the %d computing processes' % (g, ncomp)
+            else:
+                for nm in ('flux_surface', 'v_parallel', 'poloidal'):
+                    dims = comp[0][2][nm][0]
+                    cnt = np.zeros([npts[e] for e in dims], dtype=int)
+                    for x in comp:
+                        _, st, sh = x[2][nm]
+                        if min(sh) < 1:
+                            bad = 'a computing process owns no point in layout %s (shape %r)' % (nm, sh)
+                        cnt[tuple(slice(a, a + b) for a, b in zip(st, sh))] += 1
+                    if bad is None and not (cnt == 1).all():
+                        bad = 'the blocks of layout %s do not tile the index space (cells owned %d..%d times)' % (nm, cnt.min(), cnt.max())
+        if bad:
+            chk.violation('setups.setupCylindricalGrid:grid', 'npts=%r on %d ranks (plotThread=%r, drawRank=%d): %s'
+                          % (npts, n, plot, draw, bad), rep)
+
+
 def run():
     chk = core.Check('C20', 'proof')
     proof = core.proof_stage('C20')
+    setup_stage(chk)
     cases, npts_cases, box = gen_cases(chk)
     impl = implrun.run_cases('props.c20', 'impl_case', cases, tmo=5.0)
     mod = core.model_parallel(['pg %d %d %d' % (c[3], c[1], c[2]) for c in cases])
@@ -232,6 +319,27 @@ def run():
 def replay(path):
     core.setup_paths()
     body = json.load(open(path))
+    if body['replay'].get('kind') == 'setup':
+        class _C:
+            tier, seed = 'quick', 0
+            bad = []
+            def count(self, *a, **k): pass
+            def violation(self, key, what, rep, no_input=False): self.bad.append(what)
+        npts, n, plot, draw = body['replay']['case']
+        r = setup_case((npts, n, plot, draw))
+        print('set-up on %d ranks, plotThread=%r:' % (n, plot), str(r)[:600])
+        # re-judge with the stage's own rules
+        import types
+        fake = _C()
+        orig = implrun.run_cases
+        implrun.run_cases = lambda *a, **k: [r]
+        try:
+            globals()['_replay_cases'] = [(npts, n, plot, draw)]
+            _judge_setup(fake, [(npts, n, plot, draw)], [r])
+        finally:
+            implrun.run_cases = orig
+        print('\n'.join(fake.bad) or 'holds')
+        return 1 if fake.bad else 0
     c = tuple(body['replay']['case'])
     r = implrun.run_cases('props.c20', 'impl_case', [c], tmo=5.0)[0]
     if c[0] == 'max':
